@@ -443,6 +443,10 @@ pub fn make_config(args: &Args, state: &State) -> Result<Config> {
 												async move {
 													trace!("waiting for job to finish");
 													job.to_wait().await;
+													// reset before starting: a change which arrives once the
+													// queued run has begun must queue (or start) another one
+													trace!("resetting queued state");
+													queued.store(false, Ordering::SeqCst);
 													trace!("job finished, starting queued");
 													job.start();
 													job.run(move |context| {
@@ -454,8 +458,6 @@ pub fn make_config(args: &Args, state: &State) -> Result<Config> {
 														);
 													})
 													.await;
-													trace!("resetting queued state");
-													queued.store(false, Ordering::SeqCst);
 												}
 											});
 										}
